@@ -518,6 +518,39 @@ def transform_item(text, derive, log):
     return t.strip() + '\n'
 
 
+def _split_params(sig):
+    """(prefix, [params], suffix) of a normalised fn signature"""
+    k0 = sig.index('(')
+    k1 = rsrc.match_close(sig, k0)
+    inner = sig[k0 + 1:k1]
+    ps, d, cur = [], 0, ''
+    for ch in inner:
+        if ch in '([{<':
+            d += 1
+        elif ch in ')]}>':
+            d -= 1
+        if ch == ',' and d == 0:
+            ps.append(cur.strip())
+            cur = ''
+        else:
+            cur += ch
+    if cur.strip():
+        ps.append(cur.strip())
+    return sig[:k0], ps, sig[k1 + 1:]
+
+
+def param_reorder(real_sig, tpl_sig):
+    """if the two signatures differ only in the order of their (name: type) parameters, the real order; else None"""
+    try:
+        rp, rps, rs = _split_params(real_sig)
+        tp, tps, ts = _split_params(tpl_sig)
+    except (ValueError, IndexError):
+        return None
+    if rp != tp or rs != ts or rps == tps or sorted(rps) != sorted(tps) or len(set(rps)) != len(rps):
+        return None
+    return rps
+
+
 def template_sig_before(out_text, fn_name):
     """find the template's fn header for fn_name at the end of out_text"""
     ms = list(re.finditer(r'^[ \t]*((?:pub(?:\([^)]*\))?\s+)?(?:const\s+)?fn\s+' + re.escape(fn_name) + r'\b)', out_text, re.M))
@@ -630,7 +663,19 @@ def expand(unit):
             tpl_sig = rsrc.fn_signature_norm(rsrc.blank(thdr), True)
             log = []
             sig_over = [o for o in opts if o[0] == 'sig']
+            reorder = None
             if real_sig != tpl_sig:
+                reorder = param_reorder(real_sig, tpl_sig)
+            if reorder:
+                # same parameters (name: type) in another order: the contract is written over the names, so the
+                # template adopts the real order; call sites (positional) are then checked against it
+                k0 = thdr.index('(', re.search(r'\bfn\s+' + re.escape(fn_name), thdr).end())
+                k1 = rsrc.match_close(rsrc.blank(thdr), k0)
+                new_hdr = thdr[:k0 + 1] + ', '.join(reorder) + thdr[k1:]
+                sofar = sofar[:pos] + new_hdr + sofar[pos + len(thdr):]
+                out[:] = sofar.split('\n')
+                log.append(('T5', 'parameter order follows the real declaration: (%s)' % ', '.join(reorder)))
+            elif real_sig != tpl_sig:
                 if sig_over and rsrc.norm_ws(sig_over[0][1]) == real_sig:
                     log.append(('T5', 'signature differs by declared rewrite: real `%s` / template `%s`' % (real_sig, tpl_sig)))
                 else:
